@@ -88,6 +88,8 @@ THEOREMS = [
     "Verif.C08.tracked_then_edited_wellformed",
     "Verif.C08.refine_pixels_inside",
     "Verif.C08.refine_positions_inside",
+    "Verif.C08.merge_close_sublist",
+    "Verif.C08.merge_close_removed_spec",
 ]
 RULE = (
     "exhaustive small scope: the linker on all peak layouts of <=3 frames x <=2 peaks on a 4-point coordinate grid "
@@ -126,6 +128,9 @@ RULE = (
     "lk.refine_tracks_centroid(bias_correction=False) and through refine_peak_based_on_moment itself; seeded random integer "
     "images (1-12 pixels x 1-10 lines, Poisson background, spots also on the first and last pixel row) with 1-3 hand-made "
     "tracks (edge and half-pixel coordinates), widths 3-9 pixels, calibrated and uncalibrated. "
+    "merge_close_peaks (model op c08.mergeclose): exhaustive small scope - every ordered choice of <=3 coordinates of a "
+    "4-point grid, every amplitude order and equal amplitudes, minimum distances 1-3; seeded random frames of 1-7 peaks; and "
+    "the frames track_greedy itself hands to merge_close_peaks in every greedy case (before -> after). "
     "Non-trivial: a greedy/link case in which at least one link was made and at least one candidate was left "
     "unlinked (>=2 tracks); a window that is clipped by the image edge or lies strictly inside; a rectangle that "
     "removes some but not all detections."
@@ -440,9 +445,19 @@ class Spies:
                     args = _bound(orig, a, kw) or {}
                     peaks = args["peaks"] if "peaks" in args else a[0]
                     rec["premerge"] = [np.asarray(f.coordinates, dtype=float).copy() for f in peaks.frames]
+                    rec["premerge_amp"] = [np.asarray(f.peak_amplitudes, dtype=float).copy() for f in peaks.frames]
+                    rec["merge_md"] = float(args["minimum_distance"])
 
                 quietly(record)
-                return orig(*a, **kw)
+                res = orig(*a, **kw)
+
+                def record_out():
+                    rec["postmerge"] = [
+                        (np.asarray(f.coordinates, dtype=float).copy(), np.asarray(f.peak_amplitudes, dtype=float).copy()) for f in res.frames
+                    ]
+
+                quietly(record_out)
+                return res
 
             return merge
 
@@ -696,6 +711,13 @@ def run_greedy(case):
             (t0, p0), (t1, p1) = prect
             ops.append(f"c08.rectfilter {t0} {p0} {t1} {p1} {dets}")
             ans.append(dets)
+    if all(k in rec for k in ("premerge", "premerge_amp", "merge_md", "postmerge")) and len(rec["premerge"]) == len(rec["premerge_amp"]):
+        # which detections reach the linker: merge_close_peaks frame by frame (a frame with two equal coordinates is left
+        # out: NumPy's default argsort is not stable)
+        if all(len(set(float(x) for x in f)) == len(f) for f in rec["premerge"]):
+            er = lambda x: enc_rat(float(x))  # noqa: E731
+            ops.append(f"c08.mergeclose {enc_rat(rec['merge_md'])} {enc_listlist(rec['premerge'], er)} {enc_listlist(rec['premerge_amp'], er)}")
+            ans.append(enc_listlist([f[0] for f in rec["postmerge"]], er) + " " + enc_listlist([f[1] for f in rec["postmerge"]], er))
     if "score" in rec:
         sc = rec["score"]
         ops.append(
@@ -1301,6 +1323,29 @@ def run_editops(case):
     return ans, ops
 
 
+def run_mergeclose(case):
+    """`merge_close_peaks` itself on one hand-made frame (found by name, called by parameter name; "?" when not reachable)"""
+    kp, _ = _find("KymoPeaks")
+    mcp, _ = _find("merge_close_peaks")
+    fr = case["frame"]
+    er = lambda x: enc_rat(float(x))  # noqa: E731
+    ops = [f"c08.mergeclose {enc_rat(case['md'])} {enc_listlist([[c for c, _ in fr]], er)} {enc_listlist([[a for _, a in fr]], er)}"]
+    try:
+        ok, peaks = _call_named(
+            kp, coordinates=np.array([c for c, _ in fr], dtype=float), time_points=np.zeros(len(fr), dtype=int),
+            peak_amplitudes=np.array([a for _, a in fr], dtype=float),
+        )
+        if not ok:
+            return [UNSEEN], ops
+        ok, res = _call_named(mcp, peaks=peaks, minimum_distance=case["md"])
+        if not ok:
+            return [UNSEEN], ops
+        f = res.frames[0]
+        return [enc_listlist([f.coordinates], er) + " " + enc_listlist([f.peak_amplitudes], er)], ops
+    except Exception as e:
+        return [errname(e)], ops
+
+
 EPS_MOMENT = 1e-7  # the documented default `eps` of refine_peak_based_on_moment
 
 
@@ -1361,6 +1406,7 @@ def run_refine(case):
 RUNNERS = {
     "editops": run_editops,
     "refine": run_refine,
+    "mergeclose": run_mergeclose,
     "greedy": run_greedy,
     "link": run_link,
     "sumwin": run_sumwin,
@@ -1505,6 +1551,9 @@ def agree(case, i, ia, ma):
         return abs(dec_float(it[3]) - d) <= 1e-12 * scale
     if op == "c08.frames":
         return ia == ma
+    if op == "c08.mergeclose":
+        # `abs(diff(coordinates)) < minimum_distance` is decided on the rounded difference of two doubles
+        return ia == ma or mergeclose_hangs_on_last_bits(computed(case)[1][i])
     if op == "c08.moment":
         if ia == ma:
             return True
@@ -1534,6 +1583,20 @@ def agree(case, i, ia, ma):
         # the exact one and the exact one is within 1e-9 of the minimum (counted in the evidence)
         return op == "c08.edit" and filter_hangs_on_last_bits(computed(case)[1][i])
     return ia == ma
+
+
+def mergeclose_hangs_on_last_bits(op):
+    toks = op.split(" ")
+    try:
+        md = Fraction(dec_rat(toks[1]))
+        for cs in _dec_listlist(toks[2], lambda x: Fraction(dec_rat(x))):
+            for i in range(len(cs)):
+                for j in range(i + 1, len(cs)):
+                    if 0 < abs(abs(cs[i] - cs[j]) - md) <= Fraction(1, 10**12) * max(1, md):
+                        return True
+    except Exception:
+        return False
+    return False
 
 
 def agree_plain_group(a, m):
@@ -2576,6 +2639,25 @@ def cases(tier, rng):
                 for c0 in range(n):
                     yield {"stream": "small-scope-refine", "op": "refine", "walk_only": True, "image": [[v] for v in vals],
                            "line_time": 0.5, "pixel_size_um": None, "tracks": [[[0, float(c0)]]], "width_px": 3}
+    # ---- exhaustive small scope: merge_close_peaks on one frame: every ordered choice of <= 3 coordinates of a grid,
+    #      every order of distinct amplitudes (and one pair of equal ones), minimum distances 1, 2, 3
+    mgrid = [0.0, 1.0, 2.5, 3.0]
+    for k in (1, 2, 3):
+        for cs in itertools.permutations(mgrid, k):
+            for am in list(itertools.permutations([3.0, 7.0, 5.0][:k])) + ([tuple([4.0] * k)] if k > 1 else []):
+                for md in (1, 2, 3):
+                    yield {"stream": "small-scope-mergeclose", "op": "mergeclose", "frame": [[c, a] for c, a in zip(cs, am)], "md": md}
+    r = rng.fork("c08-mergeclose")
+    for i in range(300 if quick else 4000):
+        sub = r.fork(i)
+        k = sub.randint(1, 7)
+        cs = []
+        while len(cs) < k:
+            c = round(sub.uniform(0, 12), sub.choice([0, 1, 3]))
+            if c not in cs:
+                cs.append(c)
+        yield {"stream": "random-mergeclose", "op": "mergeclose", "subseed": i, "md": sub.randint(1, 4),
+               "frame": [[c, float(sub.randint(1, 6)) if sub.chance(0.5) else round(sub.uniform(1, 50), 2)] for c in cs]}
     r = rng.fork("c08-refine-walk")
     for i in range(100 if quick else 1500):
         sub = r.fork(i)
@@ -2735,6 +2817,15 @@ def extra_coverage(results):
         1 for r in results for o, a, m in zip(r["ops"], r["impl"], r["model"])
         if o.startswith("c08.refine ") and a != UNSEEN and not r["disagree"] and " " in a and " " in m and not agree_plain_group(a, m)
     )
+    mc = {"frames compared": 0, "frames in which a peak was discarded": 0, "ops from track_greedy runs": 0, "compared leniently (a distance within 1e-12 of the minimum, not on it)": 0}
+    for r in results:
+        for o, a, m in zip(r["ops"], r["impl"], r["model"]):
+            if o.startswith("c08.mergeclose ") and a != UNSEEN and " " in a:
+                before, after = _dec_listlist(o.split(" ")[2], str), _dec_listlist(a.split(" ")[0], str)
+                mc["frames compared"] += len(before)
+                mc["frames in which a peak was discarded"] += sum(1 for x, y in zip(before, after) if len(y) < len(x))
+                mc["ops from track_greedy runs"] += r["case"]["op"] == "greedy"
+                mc["compared leniently (a distance within 1e-12 of the minimum, not on it)"] += a != m and not r["disagree"]
     model_steps, lenient_filters, progs, trackofs = {}, 0, 0, 0
     for r in results:
         for o, a, m in zip(r["ops"], r["impl"], r["model"]):
@@ -2749,6 +2840,7 @@ def extra_coverage(results):
                 trackofs += 1
     return {
         "refinement_without_bias_correction_compared_with_the_model": refine_pts,
+        "merge_close_peaks_compared_with_the_model": mc,
         "edit_model_steps_compared_with_the_real_code": dict(sorted(model_steps.items())),
         "edit_model_whole_programs_compared": progs,
         "edit_model_filter_steps_that_hang_on_the_last_bits_compared_leniently": lenient_filters,
